@@ -66,11 +66,13 @@ def repo_src_hash():
 def build_lean():
     """regenerate the constants from /repo, then `lake build` (library + driver).
     Returns (ok, log, failed_modules, errors); guards of the C text that could not be translated
-    (tools/gen_guards.py) are appended to the errors as `gen_guards: ...` lines."""
-    import gen_constants, gen_guards
+    (tools/gen_guards.py) and functions that could not be translated (tools/gen_funcs.py) are appended
+    to the errors as `gen_guards: ...` / `gen_funcs: ...` lines."""
+    import gen_constants, gen_guards, gen_funcs
     with Lock("lake"):
         gen_constants.write(REPO, LEAN / "CollectionsC" / "Generated" / "Constants.lean")
         guard_problems = gen_guards.write(REPO, LEAN / "CollectionsC" / "Generated" / "Guards.lean")
+        guard_problems += gen_funcs.write(REPO, LEAN / "CollectionsC" / "Generated" / "Funcs.lean")
         sh([sys.executable, str(ROOT / "tools" / "regen.py")])
         r = sh(["lake", "build"], cwd=LEAN)
     out = r.stdout + r.stderr
